@@ -295,9 +295,11 @@ Proof.
 Qed.
 
 (* ---------- a torn frame ---------- *)
-(* the CRC of a frame payload coincides with that of one of its proper zero-completed prefixes *)
+(* the CRC of a frame payload coincides with that of one of its proper zero-completed prefixes.
+   Frame payloads have at most B - 7 bytes; the bound matters: without it no_zero_collision
+   below would contradict Hcrc by pigeonhole (see NzcVacuous.v) *)
 Definition crc_collision : Prop :=
-  exists ty fp n, n < lenN fp /\
+  exists ty fp n, lenN fp + 7 <= B /\ n < lenN fp /\
     takeN n fp ++ zerosN (lenN fp - n) <> fp /\
     crcf P ty (takeN n fp ++ zerosN (lenN fp - n)) = crcf P ty fp.
 
@@ -463,7 +465,8 @@ Proof.
              by (rewrite takeN_dropN; exact E).
            apply app_inv_head in E'. rewrite <- E'. apply all_zero_zerosN.
         -- apply bytes_eqb_neq in E. right. split; [exact E|].
-           exists tyb, fp, n. fold L. fold pl. fold crc. repeat split; assumption.
+           exists tyb, fp, n. fold L. fold pl. fold crc.
+           split; [lia|]. repeat split; assumption.
       * right. left. exists (rdat S k' (c' + 7 + L)).
         split; [exact Hrf|]. split; [exact Hreads | lia].
 Qed.
@@ -927,14 +930,15 @@ Proof.
     + right. right. right. exists y. repeat split; assumption.
 Qed.
 
-(* no frame payload has the CRC of one of its zero-completed proper prefixes *)
+(* no frame payload (at most B - 7 bytes) has the CRC of one of its zero-completed proper
+   prefixes; satisfiable together with Hcrc: NzcVacuous.nzc_bounded_sat *)
 Definition no_zero_collision : Prop :=
-  forall ty fp n, n < lenN fp ->
+  forall ty fp n, lenN fp + 7 <= B -> n < lenN fp ->
     crcf P ty (takeN n fp ++ zerosN (lenN fp - n)) = crcf P ty fp ->
     takeN n fp ++ zerosN (lenN fp - n) = fp.
 
 Lemma no_collision : no_zero_collision -> ~ crc_collision.
-Proof. intros H (ty & fp & n & Hn & Hne & Heq). apply Hne. apply (H ty fp n Hn Heq). Qed.
+Proof. intros H (ty & fp & n & Hb & Hn & Hne & Heq). apply Hne. apply (H ty fp n Hb Hn Heq). Qed.
 
 Corollary torn_read_nocoll es t x e k j fuel gofuel S :
   no_zero_collision ->
